@@ -24,6 +24,8 @@ HOOKS = {
             "with_reply_empty_keeps_rest": "C20.wrapper.with_reply_empty",
             "with_migrate_keeps_rest": "C20.wrapper.with_migrate",
             "with_migrate_empty_keeps_rest": "C20.wrapper.with_migrate_empty",
+            "new_has_no_optional_parts": "C20.wrapper.new_defaults",
+            "new_with_empty_has_no_optional_parts": "C20.wrapper.new_with_empty_defaults",
         },
         "replay": "replay/c20_wrapper.rs",
     },
